@@ -650,6 +650,34 @@ NAME_STEMS = ['a', 'seqs', 'a.b', 'a.b.c', 'v1.2', '.hid', '..h', 'a.', 'a..', '
               '.fasta', '..fasta', 'a.tar']
 NAME_DIRS = ['d', 'dir.fasta', 'a.b', '.hid', 'x.stk', '...', 'sub-1', 'fa', 'p.q.json']
 
+def g_sjson_text(rng):
+    """SJSON bytes as sugar writes them, re-rendered with other JSON layouts (indentation, separators, key order, leading /
+    trailing whitespace); the id / residue strings exercise the escapes of json.dump"""
+    seqs = g_seqs(rng, fmt='sjson')
+    if rng.random() < 0.3:
+        seqs[0][0] = rng.choice(['a"b', 'back\\slash', 'q/"\\', 'tab', '{"x": 1}', '[],', 'null', ':', 'u0041', "it's"])
+    t = mk_basket(seqs).tofmtstr('sjson')
+    obj = json.loads(t)
+    style = rng.choice(['raw', 'raw', 'indent', 'compact', 'spaces', 'trail', 'lead', 'sort', 'both'])
+    if style == 'indent':
+        t = json.dumps(obj, indent=rng.choice([0, 1, 2, 4]))
+    elif style == 'compact':
+        t = json.dumps(obj, separators=(',', ':'))
+    elif style == 'spaces':
+        t = json.dumps(obj, separators=(' ,  ', ' :\t'))
+    elif style == 'trail':
+        t = t + rng.choice(['\n', ' \n\t', '\n\n', ' '])
+    elif style == 'lead':
+        t = rng.choice(['\n', ' ', '\t\n  ']) + t
+    elif style == 'sort':
+        t = json.dumps(obj, sort_keys=True)
+    elif style == 'both':
+        t = ' ' + json.dumps(obj, indent=1) + '\n'
+    if rng.random() < 0.08:
+        t = rng.choice([t[:-1], t + '{}', t.replace('null', 'nul', 1), t.replace('"BioSeq"', '"BioSeqX"', 1), t.replace(': [', ': [[], ', 1),
+                        t.replace('"type": "', '"type": "x', 1)])
+    return t
+
 
 def g_name(rng):
     dirs = [rng.choice(NAME_DIRS) for _ in range(rng.choice([0, 0, 1, 1, 2]))]
@@ -685,6 +713,12 @@ def detect_cases(rng, tier):
     for _ in range(n_t):
         t = g_detect_text(rng)
         cases.append({'op': 'detect', 'fmt': 'fasta', 'text': t, 'via': rng.choice(['auto-bytes', 'auto-txt'] if '\r' in t else DET_VIAS)})
+    for _ in range(n_t // 3):
+        t = g_sjson_text(rng)
+        if rng.random() < 0.5:
+            cases.append({'op': 'detect', 'fmt': 'sjson', 'text': t, 'via': rng.choice(DET_VIAS)})
+        else:
+            cases.append({'op': 'detect', 'fmt': 'sjson', 'text': t, 'via': rng.choice(DET_VIAS), 'given': True})
     seen = set()
     for e in NAME_EXTS:        # every extension once with a plain name
         for nm in ['a.' + e, 'd.fasta/b.c.' + e]:
@@ -981,6 +1015,20 @@ def impl_detect(case, d):
             return objs(do_read(text, None, via, d))
         except Exception as e:
             return {'e': _exc_name(e)}
+    if case.get('given'):
+        from sugar import read
+        text = case['text']
+        try:
+            if via == 'auto-sio':
+                return objs(read(io.StringIO(text), 'sjson'))
+            if via == 'auto-bytes':
+                return objs(read(io.BytesIO(text.encode('latin-1')), 'sjson'))
+            p = d.path('g.txt')
+            with open(p, 'w', newline='') as f:
+                f.write(text)
+            return objs(read(p, 'sjson'))
+        except Exception as e:
+            return {'e': _exc_name(e)}
     if 'text' in case:
         return [det(case['text']), rd(case['text'])]
     b0 = mk_basket(case['seqs'])
@@ -1095,7 +1143,7 @@ def _opt_term(case):
 def model_term(case):
     if case['op'] == 'detect':
         ftl = coq_list([coq_pair(coq_bs(i), coq_bs(t), coq_nat(a), coq_nat(e), '"%s"%%byte' % st) for i, t, a, e, st in case.get('fts', [])])
-        return 'out (run_C01_det %s %s %s %s %s)' % (coq_N(1 if 'text' in case else 0), coq_N(FMTS.index(case['fmt'])),
+        return 'out (run_C01_det %s %s %s %s %s)' % (coq_N(2 if case.get('given') else 1 if 'text' in case else 0), coq_N(FMTS.index(case['fmt'])),
                                                      coq_seqs(case.get('seqs', [])), ftl, coq_bs(case.get('text', '')))
     if case['op'] == 'byname':
         return 'out (run_C01_byname %s %s)' % (coq_bs(case['name']), coq_seqs(case['seqs']))
@@ -1180,6 +1228,13 @@ def split_model(case, m):
 
 
 def agree(case, implval, modelval):
+    if (case['op'] == 'detect' and 'text' not in case and case['fmt'] == 'sjson' and isinstance(implval, list) and isinstance(modelval, list)
+            and len(implval) == 3 and len(modelval) == 3 and implval[0] != modelval[0] and implval[1:] == modelval[1:]):
+        # the bytes differ: the property is silent about the JSON layout, but not about the JSON value that is written
+        try:
+            return _json_docs(implval[0]) == _json_docs(modelval[0])
+        except Exception:
+            return False
     if case['op'] == 'detect' and 'text' in case and isinstance(modelval, list) and len(modelval) == 2 \
             and modelval[1] == {'e': 'NotModelled'}:
         return isinstance(implval, list) and implval[:1] == modelval[:1]        # another plugin's reader (genbank): only the detection
@@ -1202,6 +1257,15 @@ def _spec_detect_text(text):
 def spec_detect(case, got):
     if isinstance(got, dict):
         return 'raised %s inside the claimed domain' % got.get('e')
+    if case.get('given'):
+        try:        # first principles: the document is plain JSON; the sequences are the entries of its "data" list
+            doc = json.loads(case['text'])
+            want = [[x['meta'].get('id'), x['data'].upper()] for x in doc['data']]
+        except Exception:
+            return None
+        if [x[:2] for x in got] != want:
+            return 'read %r, the document holds %r' % ([x[:2] for x in got], want)
+        return None
     if 'text' in case:
         want = _spec_detect_text(case['text'])
         if want is not None and got[0] != want:
@@ -1396,6 +1460,8 @@ def _marks(case, got):
     if op == 'archive':
         return ['archive-%s' % case['archive'], 'fmt-given' if case.get('fmt_given') else 'fmt-detected']
     if op == 'detect':
+        if case.get('given'):
+            return ['sjson-bytes-given', case.get('via', '')]
         if 'text' in case:
             return ['det-text', 'det=%s' % (got[0] if isinstance(got, list) else 'raised'), case.get('via', '')]
         return ['det-written', case.get('via', '')] + (['features'] if case.get('fts') else [])
